@@ -68,6 +68,10 @@ static int single_case(Choice& c, Report& rep) {
   int chg_at[2] = {0, 0}, chg_to[2] = {0, 0};
   for (int i = 0; i < nchg; i++) { chg_at[i] = c.irange(1, 20); chg_to[i] = 1 + c.irange(0, 1); }
   if (e.force_channels != OPUS_AUTO && e.force_channels > e.ch) e.force_channels = e.ch;
+  // F21: while SILK DTX is active the stereo->mono hand-over never completes (DTX frames return before the channel history is
+  // updated), so coded stereo packets keep appearing until the next DTX refresh.  Class excluded: mid-stream changes of the forced
+  // channel count on encoders with DTX enabled.
+  if (nchg && e.dtx && rep.exclude("F21")) nchg = 0;
 
   int dur400 = cu::DUR400[d];
   int frame_size = dur400 * (e.Fs / 400);
